@@ -1,110 +1,56 @@
-(* C12, wrapper pool (second LTS of Model/Limits.v): a Close through a stale reference hits another connection;
-   it cannot happen when nobody calls Close twice through the same acquisition. *)
+(* C12, wrapper objects (second LTS of Model/Limits.v): every Close closes the connection the object was acquired for, however
+   often and by whomever it is called (the objects are not recycled: perIPConnPool stays empty). *)
 From Coq Require Import List ZArith NArith Bool Arith Lia.
 From FH Require Import Gen.GenC12 Model.Limits Proof.LimitsProof.
 Import ListNotations.
 
-Lemma remove_nth_In {A} (l : list A) i x : In x (remove_nth l i) -> In x l.
-Proof.
-  revert i; induction l as [|y l IH]; intros [|i] H; cbn in *; auto. destruct H as [H|H]; auto. right. eauto.
-Qed.
-
-Lemma remove_nth_NoDup {A} (l : list A) i : NoDup l -> NoDup (remove_nth l i).
-Proof.
-  revert i; induction l as [|y l IH]; intros [|i] H; cbn; auto; inversion H; subst; auto.
-  constructor; auto. intros Hin. apply remove_nth_In in Hin. contradiction.
-Qed.
-
-Lemma remove_nth_notin {A} (l : list A) i w : NoDup l -> nth_error l i = Some w -> ~ In w (remove_nth l i).
-Proof.
-  revert i; induction l as [|y l IH]; intros [|i] H Hn; cbn in *; try discriminate.
-  - injection Hn as ->. now inversion H.
-  - inversion H; subst. intros [->|Hin]; [apply nth_error_In in Hn; contradiction|]. eapply IH; eauto.
-Qed.
-
-Record pinv (s : pst) (D : list nat) : Prop := mkPI {
-  pi_own : forall c w, nth_error (owner s) c = Some w -> ~ In c D -> exists ip, nth_error (wrappers s) w = Some (mkW (Some c) ip);
-  pi_pool : forall w, In w (pool s) -> exists ip, nth_error (wrappers s) w = Some (mkW None ip);
-  pi_nodup : NoDup (pool s);
+Record pinv (s : pst) : Prop := mkPI {
+  pi_own : forall c w, nth_error (owner s) c = Some w ->
+             exists ip, nth_error (wrappers s) w = Some (mkW (Some c) ip) \/ nth_error (wrappers s) w = Some (mkW None ip);
+  pi_pool : pool s = [];
   pi_closes : closes_own s = true
 }.
 
-Lemma pinv_init : pinv pinit [].
-Proof. constructor; cbn; auto; [intros [|c] w H; discriminate|intros w []|constructor]. Qed.
+Lemma pinv_init : pinv pinit.
+Proof. constructor; cbn; auto. intros [|c] w H; discriminate. Qed.
 
 Lemma nth_error_lt {A} (l : list A) i x : nth_error l i = Some x -> (i < length l)%nat.
 Proof. intros H. apply nth_error_Some. congruence. Qed.
 
-Lemma closes_own_app s e : closes_own s = true -> Nat.eqb (fst e) (snd e) = true ->
-  forallb (fun e => Nat.eqb (fst e) (snd e)) (uclosed s ++ [e]) = true.
-Proof. intros H He. rewrite forallb_app. unfold closes_own in H. rewrite H. cbn. now rewrite He. Qed.
-
-Lemma pinv_step s D l s' : pinv s D -> pstep s l = Some s' ->
-  match l with PClose c => ~ In c D | _ => True end ->
-  pinv s' (match l with PClose c => c :: D | _ => D end).
+Lemma pinv_step s l s' : pinv s -> pstep s l = Some s' -> pinv s'.
 Proof.
-  intros [Ho Hp Hn Hc] Hs Hl. destruct l as [ip [i|]|c]; cbn [pstep] in Hs.
-  - (* reuse *)
-    destruct (nth_error (pool s) i) as [w|] eqn:Ei; [|discriminate]. injection Hs as <-.
-    assert (Hw : In w (pool s)) by (eapply nth_error_In; eauto). destruct (Hp _ Hw) as (ipw & Hwn).
-    constructor; cbn [owner wrappers pool uclosed].
-    + intros c w' Hc' Hd. destruct (Nat.lt_ge_cases c (length (owner s))) as [Hlt|Hge].
-      * rewrite nth_error_app1 in Hc' by exact Hlt. destruct (Ho _ _ Hc' Hd) as (ip' & Hw').
-        exists ip'. rewrite nth_error_upd_other; [exact Hw'|]. intros ->. congruence.
-      * rewrite nth_error_app2 in Hc' by exact Hge. destruct (c - length (owner s))%nat as [|j] eqn:E; [|destruct j; discriminate].
-        cbn in Hc'. injection Hc' as <-. assert (c = length (owner s)) by lia. subst c. exists ip.
-        eapply nth_error_upd_same; eauto.
-    + intros w' Hin. pose proof (remove_nth_notin _ _ _ Hn Ei) as Hnot. pose proof (remove_nth_In _ _ _ Hin) as Hin'.
-      destruct (Hp _ Hin') as (ip' & Hw'). exists ip'. rewrite nth_error_upd_other; [exact Hw'|]. intros ->. contradiction.
-    + now apply remove_nth_NoDup.
-    + exact Hc.
-  - (* fresh object *)
-    injection Hs as <-. constructor; cbn [owner wrappers pool uclosed]; auto.
-    + intros c w' Hc' Hd. destruct (Nat.lt_ge_cases c (length (owner s))) as [Hlt|Hge].
-      * rewrite nth_error_app1 in Hc' by exact Hlt. destruct (Ho _ _ Hc' Hd) as (ip' & Hw').
-        exists ip'. rewrite nth_error_app1; [exact Hw'|]. eapply nth_error_lt; eauto.
-      * rewrite nth_error_app2 in Hc' by exact Hge. destruct (c - length (owner s))%nat as [|j] eqn:E; [|destruct j; discriminate].
-        cbn in Hc'. injection Hc' as <-. assert (c = length (owner s)) by lia. subst c. exists ip.
-        rewrite nth_error_app2 by lia. now rewrite Nat.sub_diag.
-    + intros w' Hin. destruct (Hp _ Hin) as (ip' & Hw'). exists ip'. rewrite nth_error_app1; [exact Hw'|]. eapply nth_error_lt; eauto.
-  - (* Close *)
-    destruct (nth_error (owner s) c) as [w|] eqn:Ec; [|discriminate].
-    destruct (Ho _ _ Ec Hl) as (ipw & Hw). rewrite Hw in Hs. injection Hs as <-.
-    assert (Hnotin : ~ In w (pool s)). { intros Hin. destruct (Hp _ Hin) as (ip' & Hw'). congruence. }
-    constructor; cbn [owner wrappers pool uclosed].
-    + intros c2 w2 Hc2 Hd. assert (Hd2 : ~ In c2 D) by (intros X; apply Hd; now right). destruct (Ho _ _ Hc2 Hd2) as (ip' & Hw2).
-      exists ip'. rewrite nth_error_upd_other; [exact Hw2|]. intros ->. rewrite Hw in Hw2. injection Hw2 as ->. apply Hd. now left.
-    + intros w' [<-|Hin].
-      * exists ipw. eapply nth_error_upd_same; eauto.
-      * destruct (Hp _ Hin) as (ip' & Hw'). exists ip'. rewrite nth_error_upd_other; [exact Hw'|]. intros ->. contradiction.
-    + constructor; auto.
-    + unfold closes_own. cbn [uclosed]. apply closes_own_app; [exact Hc|]. cbn. apply Nat.eqb_refl.
+  intros [Ho Hp Hc] Hs. destruct l as [ip [i|]|c]; cbn [pstep] in Hs.
+  - rewrite Hp in Hs. destruct i; discriminate.
+  - injection Hs as <-. constructor; cbn [owner wrappers pool uclosed]; auto.
+    intros c w' Hc'. destruct (Nat.lt_ge_cases c (length (owner s))) as [Hlt|Hge].
+    + rewrite nth_error_app1 in Hc' by exact Hlt. destruct (Ho _ _ Hc') as (ip' & [Hw'|Hw']); exists ip'; [left|right];
+        (rewrite nth_error_app1; [exact Hw'|eapply nth_error_lt; eauto]).
+    + rewrite nth_error_app2 in Hc' by exact Hge. destruct (c - length (owner s))%nat as [|j] eqn:E; [|destruct j; discriminate].
+      cbn in Hc'. injection Hc' as <-. assert (c = length (owner s)) by lia. subst c. exists ip. left.
+      rewrite nth_error_app2 by lia. now rewrite Nat.sub_diag.
+  - destruct (nth_error (owner s) c) as [w|] eqn:Ec; [|discriminate].
+    destruct (Ho _ _ Ec) as (ipw & [Hw|Hw]); rewrite Hw in Hs; injection Hs as <-; [|constructor; auto].
+    constructor; cbn [owner wrappers pool uclosed]; auto.
+    + intros c2 w2 Hc2. destruct (Ho _ _ Hc2) as (ip' & Hw2). destruct (Nat.eq_dec w2 w) as [->|Hne].
+      * exists ipw. right. eapply nth_error_upd_same; eauto.
+      * exists ip'. rewrite nth_error_upd_other by congruence. exact Hw2.
+    + unfold closes_own in *. cbn [uclosed]. rewrite forallb_app, Hc. cbn. now rewrite Nat.eqb_refl.
 Qed.
 
-Lemma pinv_run tr : forall s D s', pinv s D -> prun s tr = Some s' -> NoDup (closers tr) ->
-  (forall c, In c (closers tr) -> ~ In c D) -> closes_own s' = true.
+Lemma pinv_run tr : forall s s', pinv s -> prun s tr = Some s' -> pinv s'.
 Proof.
-  induction tr as [|l tr IH]; intros s D s' I Hr Hnd Hdis; cbn in Hr.
-  - injection Hr as <-. apply (pi_closes _ _ I).
-  - destruct (pstep s l) as [s1|] eqn:E; [|discriminate].
-    destruct l as [ip r|c]; cbn [closers] in Hnd, Hdis.
-    + eapply (IH s1 D); eauto. exact (pinv_step _ _ _ _ I E Logic.I).
-    + inversion Hnd; subst. eapply (IH s1 (c :: D)); eauto.
-      * apply (pinv_step _ _ (PClose c) _ I E). apply Hdis. now left.
-      * intros c' Hin [->|HD]; [contradiction|]. apply (Hdis c'); [now right|exact HD].
+  induction tr as [|l tr IH]; intros s s' I Hr; cbn in Hr; [injection Hr as <-; exact I|].
+  destruct (pstep s l) as [s1|] eqn:E; [|discriminate]. eapply IH; [|exact Hr]. eapply pinv_step; eauto.
 Qed.
 
-(* nobody calls Close twice through the same acquisition => every Close closes the caller's own connection *)
-Lemma closes_own_when_closed_once tr s : prun pinit tr = Some s -> NoDup (closers tr) -> closes_own s = true.
-Proof. intros Hr Hnd. eapply pinv_run; eauto using pinv_init. Qed.
+(* any number of connections, any number of Close calls through any reference, any interleaving *)
+Lemma closes_own_always tr s : prun pinit tr = Some s -> closes_own s = true /\ pool s = [].
+Proof. intros Hr. pose proof (pinv_run _ _ _ pinv_init Hr) as I. split; apply I. Qed.
 
-(* FINDING peripconn-stale-close-hits-recycled-wrapper.  Connection 0 (1.1.1.1) is closed through its wrapper by a third party
-   (closeIdleConns, a handler using ctx.Conn(), the first of two Close calls of a hijack user); connection 1 (2.2.2.2) arrives
-   and Gets the same object; the goroutine of connection 0 finishes and closes "its" connection: connection 1 is closed and its
-   per-IP unit released while it is being served. *)
-Definition stale_trace : list plabel := [PAcquire 16843009 None; PClose 0; PAcquire 33686018 (Some 0%nat); PClose 0].
+(* the schedule of the former finding: the third party's Close, a new connection, the owner's Close *)
+Definition stale_trace : list plabel := [PAcquire 16843009 None; PClose 0; PAcquire 33686018 None; PClose 0].
 
-Lemma stale_close_hits_other_connection :
-  exists s, prun pinit stale_trace = Some s /\ closes_own s = false /\ uclosed s = [(0, 0); (0, 1)]%nat /\
-            pm s 33686018%N = None /\ nth_error (owner s) 1 = Some 0%nat.
+Lemma stale_close_is_a_noop :
+  exists s, prun pinit stale_trace = Some s /\ closes_own s = true /\ uclosed s = [(0, 0)]%nat /\
+            pm s 33686018%N = Some 1%Z /\ prun pinit [PAcquire 16843009 None; PClose 0; PAcquire 33686018 (Some 0%nat)] = None.
 Proof. eexists. split; [vm_compute; reflexivity|]. repeat split. Qed.
